@@ -61,7 +61,11 @@ def to_json_serializable(obj: JsonDataPrecursor) -> JsonData:
     if isinstance(obj, datetime.datetime):
         jval = str(obj)
         return jval if jval != "NaT" else None
-    
+
+    if isinstance(obj, np.generic):
+        # A numpy scalar, e.g. an element of a pandas nullable ("Int64", "boolean") column
+        return to_json_serializable(obj.item())
+
     # Convert any NA type to None
     # Need the try/except as this might be a sequence type
     try:
